@@ -828,6 +828,29 @@ class Flattener(object):
             kind, gen = self._anyall(s.value)
             return self._anyall_loop(kind, gen, s.targets[0].id, s)
         if isinstance(s, ast.If):
+            # a short-circuit test with an any/all operand: split it, so that the operand becomes a test of its own
+            t = s.test
+            if isinstance(t, ast.UnaryOp) and isinstance(t.op, ast.Not) and isinstance(t.operand, ast.BoolOp):
+                inner = t.operand
+                flipped = ast.Or() if isinstance(inner.op, ast.And) else ast.And()
+                t = ast.copy_location(ast.BoolOp(op=flipped, values=[
+                    ast.copy_location(ast.UnaryOp(op=ast.Not(), operand=v), v) for v in inner.values]), t)
+
+            def has_anyall(e):
+                while isinstance(e, ast.UnaryOp) and isinstance(e.op, ast.Not):
+                    e = e.operand
+                return self._anyall(e) is not None
+            if isinstance(t, ast.BoolOp) and len(t.values) >= 2 and any(has_anyall(v) for v in t.values):
+                first = t.values[0]
+                rest = t.values[1] if len(t.values) == 2 else ast.copy_location(ast.BoolOp(op=t.op, values=t.values[1:]), t)
+                self.desugared += 1
+                if isinstance(t.op, ast.And):
+                    inner_if = ast.copy_location(ast.If(test=rest, body=s.body, orelse=clone(s.orelse)), s)
+                    new_if = ast.copy_location(ast.If(test=first, body=[inner_if], orelse=s.orelse), s)
+                else:
+                    inner_if = ast.copy_location(ast.If(test=rest, body=clone(s.body), orelse=s.orelse), s)
+                    new_if = ast.copy_location(ast.If(test=first, body=s.body, orelse=[inner_if]), s)
+                return self.desugar([new_if])
             t = s.test
             neg = False
             if isinstance(t, ast.UnaryOp) and isinstance(t.op, ast.Not):
@@ -909,6 +932,11 @@ class Flattener(object):
             pass
         node.body = self.lower_comprehensions(node.body)
         node.body = self.rewrite_block(node.body, self.fi.cls, [self.fi.key])
+        # inlining exposes new sugar (a helper that was `return any(...)`): one more desugaring round
+        before = self.desugared
+        node.body = self.desugar(node.body)
+        if self.desugared != before and (self.fi.key + '::<desugared>') not in self.inlined:
+            self.inlined.append(self.fi.key + '::<desugared>')
         ast.fix_missing_locations(node)
         for n in ast.walk(node):
             for child in ast.iter_child_nodes(n):
